@@ -19,13 +19,13 @@ pub fn linking(lang: &str) -> Vec<&'static str> {
 }
 pub fn fillers(lang: &str) -> Vec<&'static str> {
     match lang {
-        "de" => vec!["Kühe","Haus","der","eine","Liste","grün","Tisch","läuft","wir","Straße","4x4","7h30"],
-        "en" => vec!["cows","house","the","a","list","green","table","runs","we","street","o'clock","point","4x4","2nd","3D","five-star","one-way","nine-to-five"],
-        "es" => vec!["vacas","casa","el","la","lista","verde","mesa","corre","nosotros","calle","4x4","3º"],
-        "fr" => vec!["vaches","maison","le","du","l'","logement","numéro","vert","table","court","nous","rue","4x4","2ème","7h30","deux-pièces","trois-mâts"],
-        "it" => vec!["mucche","casa","il","la","lista","verde","tavolo","corre","noi","strada","4x4","3D"],
-        "nl" => vec!["koeien","huis","de","het","lijst","groen","tafel","loopt","wij","straat","4x4","2e"],
-        "pt" => vec!["vacas","casa","o","a","lista","verde","mesa","corre","nós","rua","4x4","meia"],
+        "de" => vec!["Kühe","Haus","der","eine","Liste","grün","Tisch","läuft","wir","Straße","4x4","Ⅷ","ǅ","7h30"],
+        "en" => vec!["cows","house","the","a","list","green","table","runs","we","street","o'clock","point","4x4","Ⅷ","ǅ","2nd","3D","five-star","one-way","nine-to-five"],
+        "es" => vec!["vacas","casa","el","la","lista","verde","mesa","corre","nosotros","calle","4x4","Ⅷ","ǅ","3º"],
+        "fr" => vec!["vaches","maison","le","du","l'","logement","numéro","vert","table","court","nous","rue","4x4","Ⅷ","ǅ","2ème","7h30","deux-pièces","trois-mâts"],
+        "it" => vec!["mucche","casa","il","la","lista","verde","tavolo","corre","noi","strada","4x4","Ⅷ","ǅ","3D"],
+        "nl" => vec!["koeien","huis","de","het","lijst","groen","tafel","loopt","wij","straat","4x4","Ⅷ","ǅ","2e"],
+        "pt" => vec!["vacas","casa","o","a","lista","verde","mesa","corre","nós","rua","4x4","Ⅷ","ǅ","meia","outra","vez","aí","está","tarde"],
         _ => panic!(),
     }
 }
